@@ -581,18 +581,16 @@ class CheckedCoverageInstrumentation(python3_10.CheckedCoverageInstrumentation):
 
         # We want to place the instrumentation instructions before the PRECALL and KW_NAMES
         # instructions, if they are present, otherwise it may cause issues.
-        precall_instr = node.try_get_instruction(instr_index - 1)
-        assert precall_instr is not None, (
-            f"A Instruction should exist at index {instr_index - 1} in {node.basic_block}"
-        )
-        if precall_instr.name == "PRECALL":
+        # (instr_index is a position in the basic block, see
+        # BasicBlockNode.instrumentation_original_instructions)
+        assert instr_index > 0, f"An instruction should exist before index {instr_index}"
+        precall_instr = node.basic_block[instr_index - 1]
+        if isinstance(precall_instr, Instr) and precall_instr.name == "PRECALL":
             instr_index -= 1
 
-        kw_names_instr = node.try_get_instruction(instr_index - 1)
-        assert kw_names_instr is not None, (
-            f"Instruction should exist at index {instr_index - 1} in {node.basic_block}"
-        )
-        if kw_names_instr.name == "KW_NAMES":
+        assert instr_index > 0, f"An instruction should exist before index {instr_index}"
+        kw_names_instr = node.basic_block[instr_index - 1]
+        if isinstance(kw_names_instr, Instr) and kw_names_instr.name == "KW_NAMES":
             instr_index -= 1
 
         # Instrumentation before the original instruction
